@@ -129,13 +129,13 @@ theorem ecdfHist1_shift (c : Rat) (edges : List Rat) (counts : List Nat) (y : Ra
     `Q sample prob` for the shift to pass through: `E` is shift invariant with values in `[0, 1]`,
     `Q` is shift equivariant on `[0, 1]`. -/
 structure ShiftLaws (E Q : List Rat → Rat → Rat) : Prop where
-  E_shift : ∀ (x : List Rat) (y c : Rat), E (x.map (fun v => v + c)) (y + c) = E x y
+  E_shift : ∀ (x : List Rat) (y c : Rat), x ≠ [] → E (x.map (fun v => v + c)) (y + c) = E x y
   E_le_one : ∀ (x : List Rat) (y : Rat), x ≠ [] → E x y ≤ 1
   Q_shift : ∀ (x : List Rat) (q c : Rat), x ≠ [] → q ≤ 1 → Q (x.map (fun v => v + c)) q = Q x q + c
 
 /-- **every `ecdf_method` × `iecdf_method` pair of the library** (2 × 9) satisfies the laws -/
 theorem shiftLaws_ecdf_iecdf (em : EcdfMethod) (im : IecdfMethod) : ShiftLaws (ecdf1 em) (iecdf1 im) where
-  E_shift := ecdf1_shift em
+  E_shift := fun x y c _ => ecdf1_shift em x y c
   E_le_one := fun x y _ => ecdf1_le_one em x y
   Q_shift := fun _ _ c hne h1 => iecdf1_shift im hne h1 c
 
@@ -160,6 +160,13 @@ theorem histE_shift (bins : List Rat → List Rat × List Nat) (hb : BinsShift b
 
 theorem histE_le_one (bins : List Rat → List Rat × List Nat) (hb : BinsShift bins) {x : List Rat} (hx : x ≠ [])
     (y : Rat) : histE bins x y ≤ 1 := (ecdfHist_range (hb.laws x hx) y).2
+
+/-- **`kernel_density` ecdf × every inverse-ecdf method**, under the oracle law for the bins -/
+theorem shiftLaws_hist_iecdf (bins : List Rat → List Rat × List Nat) (hb : BinsShift bins) (im : IecdfMethod) :
+    ShiftLaws (histE bins) (iecdf1 im) where
+  E_shift := fun _ y c hx => histE_shift bins hb hx y c
+  E_le_one := fun _ y hx => histE_le_one bins hb hx y
+  Q_shift := fun _ _ c hne h1 => iecdf1_shift im hne h1 c
 
 /-! ### non-vacuity -/
 
